@@ -101,7 +101,12 @@ class Prop:
               "C01_step_chk_live/_stale, C01_run_chk_is_run and C01_history_chk connect the two.  NOT covered by theorem or test: operations "
               "issued through stale references (a removed node, a node of a cleared tree): the model answers EModel for all of them and the "
               "generators never issue them (mut.NotLive), although the library accepts some (live.add(removed_node) inserts a node); 'any "
-              "sequence of public mutating operations' is therefore established for sequences whose references are live when used."),
+              "sequence of public mutating operations' is therefore established for sequences whose references are live when used.  "
+              "'Reports THAT tree as owner': the pointer-level model has one heap per tree and a boolean owner flag (_tree is not None), so a "
+              "node linked in tree A with _tree = B is not expressible in Coq; that clause is checked on the implementation by the pointer-level "
+              "oracle only (mut.wf_oracle: c._tree is t for every reachable node; cross-tree move is refused in model and code).  Explicit "
+              "node ids (add_child(node_id=)) are modelled by the wrapper machine Mut/MachineNodeId.v and the part NODEID; their uniqueness "
+              "rests on an `assert` in Tree._register (void under python -O)."),
         technique="Coq proof about an executable Gallina model + differential correspondence check (vm_compute) + Python oracle",
         design_ref="DESIGN.md section 6 (C01), 3.2, 3.4",
     )
